@@ -72,6 +72,15 @@ def fam_b():
     for chunks in (1, 2):
         sc = [(4, 0, 0, 0, 0), (4, 0, 3, 0, 1), (4, 0, 7, 0, 2)]
         yield ('B', [G.seg([(A, F.daqmx_enc(2, sc, [4], 'dl'), nscales(sc))], chunks=chunks)])
+    # two cards: digital lines at the same byte offset and of the same type in different raw buffers (of different widths and lengths)
+    for chunks in (1, 2):
+        for big in (False, True):
+            for widths, n0, n1 in (([2, 1], 2, 3), ([1, 1], 3, 2), ([1, 3], 2, 2)):
+                objs = [("/'g'/'p0l3'", F.daqmx_enc(n0, [(0, 0, 3, 0, 0)], widths, 'dl'), nscales([(0, 0, 3, 0, 0)])),
+                        ("/'g'/'p1l3'", F.daqmx_enc(n1, [(0, 1, 3, 0, 0)], widths, 'dl'), nscales([(0, 1, 3, 0, 0)])),
+                        ("/'g'/'p1l5'", F.daqmx_enc(n1, [(0, 1, 5, 0, 0)], widths, 'dl'), nscales([(0, 1, 5, 0, 0)])),
+                        ("/'g'/'p0l5'", F.daqmx_enc(n0, [(0, 0, 5, 0, 0)], widths, 'dl'), nscales([(0, 0, 5, 0, 0)]))]
+                yield ('B', [G.seg(objs, chunks=chunks, big=big)])
     # several digital lines of one port as several channels
     for chunks in (1, 2):
         objs = [("/'g'/'line%d'" % b, F.daqmx_enc(2, [(0, 0, b, 0, 0)], [2], 'dl'), nscales([(0, 0, b, 0, 0)])) for b in range(0, 16, 3)]
